@@ -39,6 +39,20 @@ else:
     for d in glob.glob(os.path.join(demo, "*.diff")) + glob.glob(os.path.join(demo, "*.patch")):
         rc, out = sh("git apply %s" % d)
         res.setdefault("demo_install", []).append([os.path.basename(d), rc])
+    # register mock tests that no diff registered
+    modrs = os.path.join(wt, "src/vm/tests/mock_tests/mod.rs")
+    mtxt = open(modrs).read()
+    for f in glob.glob(os.path.join(demo, "*.rs")):
+        nm = os.path.basename(f)[:-3]
+        if nm.startswith("mock_test") and ("mod %s;" % nm) not in mtxt:
+            mtxt += "\nmod %s;\n" % nm
+            res.setdefault("demo_install", []).append(["auto-registered " + nm, 0])
+        elif not nm.startswith("mock_test"):
+            # helper modules (e.g. a harness): install next to the mock tests as well
+            shutil.copy(f, os.path.join(wt, "src/vm/tests/mock_tests/"))
+            if ("mod %s;" % nm) not in mtxt:
+                mtxt += "\nmod %s;\n" % nm
+    open(modrs, "w").write(mtxt)
     run = open(os.path.join(demo, "RUN.md")).read() if os.path.exists(os.path.join(demo, "RUN.md")) else ""
     cmds = []
     cur = None
